@@ -39,6 +39,10 @@ func c06Check(cs vshCase, d *vshDesc) []vshFinding { //nolint:gocognit,cyclop
 	add := func(key, what string) {
 		out = append(out, vshFinding{key + "|" + ctx, what + " — " + where})
 	}
+	// a section without a mid is keyed without the semantics: one code path writes the rejected section
+	addNoSem := func(key, what string) {
+		out = append(out, vshFinding{key + "|" + d.Type, what + " — " + where})
+	}
 	var parsed sdp.SessionDescription
 	if err := parsed.UnmarshalString(d.SDP); err != nil {
 		add("unparseable", "does not parse as SDP: "+err.Error())
@@ -52,18 +56,30 @@ func c06Check(cs vshCase, d *vshDesc) []vshFinding { //nolint:gocognit,cyclop
 			rej = "port0"
 		}
 		if !s.HasMid || s.Mid == "" {
-			add("no-mid|media="+s.Media+"|"+rej, fmt.Sprintf("m-section %d (%s) carries no mid", j, s.Media))
+			addNoSem("no-mid|media="+s.Media+"|"+rej, fmt.Sprintf("m-section %d (%s) carries no mid", j, s.Media))
 
 			continue
 		}
 		for i := 0; i < j; i++ {
 			if secs[i].HasMid && secs[i].Mid == s.Mid {
 				dup = true
-				rel := "mid!=own-index"
-				if s.Mid == strconv.Itoa(j) {
+				// the class of the colliding pair: which kind of section repeats which, and how the
+				// repeated mid relates to the shortcuts of the allocation (own index, the literal "data")
+				rel := "mid=other"
+				switch {
+				case s.Mid == strconv.Itoa(j):
 					rel = "mid=own-index"
+				case s.Mid == "data" || s.Mid == "audio" || s.Mid == "video":
+					rel = "mid=planb-literal"
 				}
-				add("dup-mid|"+s.Media+"-repeats-"+secs[i].Media+"|"+rel, fmt.Sprintf("m-sections %d (%s) and %d (%s) share mid %q", i, secs[i].Media, j, s.Media, s.Mid))
+				cl := func(m string) string {
+					if m == "application" {
+						return m
+					}
+
+					return "media"
+				}
+				add("dup-mid|"+cl(s.Media)+"-repeats-"+cl(secs[i].Media)+"|"+rel, fmt.Sprintf("m-sections %d (%s) and %d (%s) share mid %q", i, secs[i].Media, j, s.Media, s.Mid))
 
 				break
 			}
@@ -239,66 +255,7 @@ func c06Configs(all bool) []vshCfg {
 // c06SynCases: pre-operations, a synthetic remote offer, local additions (the final CreateOffer probe
 // of the replay is the local re-offer); in round 2 a second exchange and more additions.
 func c06SynCases(cfgs []vshCfg, quick bool) []vshCase {
-	opA := vshOp{Side: "X", Op: "addk", Kind: "audio", Dir: "sendrecv"}
-	opV := vshOp{Side: "X", Op: "addk", Kind: "video", Dir: "recvonly"}
-	opD := vshOp{Side: "X", Op: "dc"}
-	opS := vshOp{Side: "X", Op: "stop", Idx: 0}
-	opN := vshOp{Side: "X", Op: "negs"}
-	pres := [][]vshOp{{}, {opA}}
-	posts := [][]vshOp{{}, {opD}, {opA}, {opA, opD}}
-	if !quick {
-		pres = [][]vshOp{{}, {opA}, {opV}, {opD}}
-		posts = vshSeqs([]vshOp{opA, opV, opD, opS}, 0, 2)
-	}
-	var out []vshCase
-	for _, cfg := range cfgs {
-		for n := 1; n <= 3; n++ {
-			if quick && n == 3 {
-				continue
-			}
-			bundles := []string{"", "none", "first"}
-			if n == 1 {
-				bundles = []string{"", "none"}
-			}
-			for _, secs := range vshSynOffers(n, n <= 2) {
-				unknown := false
-				for _, s := range secs {
-					unknown = unknown || s.Codec != ""
-				}
-				for _, bundle := range bundles {
-					if unknown && bundle != "" {
-						continue
-					}
-					sro := vshOp{Side: "X", Op: "sro", Secs: secs, Bundle: bundle}
-					ps, qs := pres, posts
-					if n == 3 {
-						ps, qs = [][]vshOp{{}}, [][]vshOp{{opD}, {opA, opD}}
-					}
-					for _, pre := range ps {
-						for _, post := range qs {
-							out = append(out, vshCase{Cfg: cfg, Hist: vshCat(pre, []vshOp{sro}, post)})
-						}
-					}
-					if quick || n == 3 || unknown || bundle != "" {
-						continue
-					}
-					// round 2: X re-offers to the synthetic peer, which accepts; then more additions;
-					// or the synthetic peer re-offers with one more section
-					for _, post := range [][]vshOp{{}, {opD}, {opA}} {
-						for _, post2 := range [][]vshOp{{opD}, {opA}, {opA, opD}, {opV, opA}} {
-							out = append(out, vshCase{Cfg: cfg, Hist: vshCat([]vshOp{sro}, post, []vshOp{opN}, post2)})
-						}
-						for _, mid := range []string{"1", "7", "a"} {
-							sro2 := vshOp{Side: "X", Op: "sro", Secs: []vshSynSec{{Media: "video", Mid: mid}}}
-							out = append(out, vshCase{Cfg: cfg, Hist: vshCat([]vshOp{sro}, post, []vshOp{sro2, opA, opD})})
-						}
-					}
-				}
-			}
-		}
-	}
-
-	return out
+	return vshSynCases(cfgs, quick, true)
 }
 
 func TestVerifC06(t *testing.T) {
